@@ -1,4 +1,5 @@
 #pragma once
+#include "../../common/verif_hooks.h"
 
 #include "../smoother.h"
 
@@ -18,6 +19,7 @@ public:
     void smoothing(Vector<double>& x, const Vector<double>& rhs, Vector<double>& temp) override;
 
 private:
+    GMGPOLAR_VERIF_FRIEND
     // The A_sc matrix on i_r = 0 is defined through the COO/CSR matrix
     // 'inner_boundary_circle_matrix_' due to the across-origin treatment.
     // It isn't tridiagonal and thus it requires a more advanced solver.
